@@ -1,5 +1,11 @@
 package dagaz
 
+import "sync"
+
+// State is the ground plane state of a session. It is shared by the module
+// instances of all the session's participants, whose connections are served
+// concurrently: every access to SpatialPartition goes through Mutex.
 type State struct {
+	Mutex            sync.RWMutex
 	SpatialPartition SpatialPartition
 }
